@@ -325,6 +325,26 @@ def run_keypair(ctx, spec):
       if _entry(key, 'CheckKeypairDenylist') and _factors(key) != {p, q}:
         ctx.violation('CheckKeypairDenylist-factors', 'recorded %r' %
                       sorted(_factors(key)), {'seed0': b0, 'bits': bits})
+      if bits == 2048:
+        # the same check object, right after the genuine key: a different
+        # modulus with the same 64 leading bits (also in one batch with it)
+        cut = [8, 64, 1000, 1900][b0 % 4]
+        other = (n >> cut << cut) | (((n & ((1 << cut) - 1)) + 2 * b0 + 2) %
+                                     (1 << cut)) | 1
+        if other != n:
+          key2, key3, key4 = gen.rsa_key(other), gen.rsa_key(n), gen.rsa_key(
+              other)
+          chk.Check([key2])
+          chk.Check([key3, key4])
+          ctx.count('keypair_colliders_after_genuine')
+          for k in (key2, key4):
+            _expect(ctx, 'CheckKeypairDenylist', k, False,
+                    'modulus sharing the 64 msb with the covered key checked '
+                    'just before by the same object', {'n': other})
+            if _factors(k):
+              ctx.violation('CheckKeypairDenylist-fabricated-factors',
+                            'factors for a modulus that merely shares 64 msb '
+                            'with the key checked before', {'n': other})
   try:
     ctx.sample({'check': 'CheckKeypairDenylist', 'seed_first_byte': b0,
                 'bits': bits, 'n': n})
